@@ -26,8 +26,9 @@ def has_neg_over_mixed(ast):
     return go(ast, False)
 
 def oracle_formula(res, ast, m):
-    lv = leaves_of(m)
-    ids = [l.id for l in lv]
+    def ast_ids(a):
+        return [a["id"]] if a["k"] in ("str", "var") else [i for c in a.get("ch", []) for i in ast_ids(c)]
+    ids = sorted({l.id for l in leaves_of(m)} | set(ast_ids(ast)))     # the atoms the formula was WRITTEN over, even if the model lost some
     for vals in itertools.product([0, 1], repeat=len(ids)):
         env = dict(zip(ids, vals))
         res.evaluations += 1
@@ -180,8 +181,9 @@ def oracle_json(res, ast):
         return {"op": "json-constructor", "model": ast_json(ast), "problem": f"from_json raised {type(e).__name__}: {e}"}
     if isinstance(m, str) or is_var(m) or m.errors():
         return None
-    lv = leaves_of(m)
-    ids = [l.id for l in lv]
+    def ast_ids(a):
+        return [a["id"]] if a["k"] in ("str", "var") else [i for c in a.get("ch", []) for i in ast_ids(c)]
+    ids = sorted({l.id for l in leaves_of(m)} | set(ast_ids(ast)))     # the atoms the formula was WRITTEN over, even if the model lost some
     for vals in itertools.product([0, 1], repeat=len(ids)):
         env = dict(zip(ids, vals))
         res.evaluations += 1
